@@ -46,6 +46,39 @@ MUTANTS = [
  M("c09-sign-before-statehash", "C09", "C09.sign", (CORE, "\tif err == nil {\n\t\tblock.Body.StateHash = commitResponse.StateHash\n\t\tblock.Body.InternalTransactionReceipts = commitResponse.InternalTransactionReceipts\n", "\tif err == nil {\n"), (CORE, "\t\t\tc.selfBlockSignatures.Add(sig)\n\t\t}\n", "\t\t\tc.selfBlockSignatures.Add(sig)\n\t\t}\n\t\tblock.Body.StateHash = commitResponse.StateHash\n\t\tblock.Body.InternalTransactionReceipts = commitResponse.InternalTransactionReceipts\n")),
  M("c09-sign-nonmember", "C09", "C09.sign", (CORE, "if _, ok := blockPeerSet.ByID[c.validator.ID()]; ok {", "if _, ok := blockPeerSet.ByID[c.validator.ID()]; ok || len(blockPeerSet.Peers) > 0 {")),
  M("c09-wire-validator-from-sig", "C09", "C09.attrib", ("src/hashgraph/event.go", "\t\t\t\tValidator: validator,\n", "\t\t\t\tValidator: []byte(bs.Signature),\n")),
+ # ---- C10 / C13.latest
+ M("c10-plus5", "C10", "C10.plus6", (CORE, "effectiveRound := roundReceived + 6", "effectiveRound := roundReceived + 5")),
+ M("c10-apply-refused", "C10", "C10.accepted", (CORE, "\t\tif r.Accepted {\n\t\t\tc.logger.WithFields(logrus.Fields{\n\t\t\t\t\"peer\":           txBody.Peer,", "\t\tif r.Accepted || len(receipts) == 1 {\n\t\t\tc.logger.WithFields(logrus.Fields{\n\t\t\t\t\"peer\":           txBody.Peer,")),
+ M("c10-remove-adds", "C10", "C10.accepted", (CORE, "\t\t\tcase hg.PEER_REMOVE:\n\t\t\t\tvalidators = validators.WithRemovedPeer(&txBody.Peer)", "\t\t\tcase hg.PEER_REMOVE:\n\t\t\t\tvalidators = validators.WithNewPeer(&txBody.Peer)")),
+ M("c10-overwrite-peerset", "C10", "C10.writers", ("src/hashgraph/caches.go", "\tif _, ok := c.peerSets[round]; ok {\n\t\treturn cm.NewStoreErr(\"PeerSetCache\", cm.KeyAlreadyExists, strconv.Itoa(round))\n\t}\n", "\tif _, ok := c.peerSets[round]; ok && round == 0 {\n\t\treturn cm.NewStoreErr(\"PeerSetCache\", cm.KeyAlreadyExists, strconv.Itoa(round))\n\t}\n")),
+ M("c10-rpc-sets-peerset", "C10", "C10.writers", (RPC, "\tsuccess := true\n", "\tsuccess := true\n\tn.core.hg.Store.SetPeerSet(n.core.hg.Store.LastRound()+1, n.core.validators)\n")),
+ M("c10-lookup-strict", "C10", "C10.lookup", ("src/hashgraph/caches.go", "if round >= c.rounds[i] && round < c.rounds[i+1] {", "if round > c.rounds[i] && round < c.rounds[i+1] {")),
+ M("c10-lookup-next-entry", "C10", "C10.lookup", ("src/hashgraph/caches.go", "if round >= c.rounds[i] && round < c.rounds[i+1] {\n\t\t\treturn c.peerSets[c.rounds[i]], nil", "if round >= c.rounds[i] && round < c.rounds[i+1] {\n\t\t\treturn c.peerSets[c.rounds[i+1]], nil")),
+ M("c10-unsorted-rounds", "C10", "C10.lookup", ("src/hashgraph/caches.go", "\tc.rounds = append(c.rounds, round)\n\tc.rounds.Sort()\n", "\tc.rounds = append(c.rounds, round)\n")),
+ M("c10-witness-nonmember", "C10", "C10.member", (HGF, "\tif _, ok := peerSet.ByPubKey[ex.Creator()]; !ok {\n\t\treturn false, nil\n\t}\n", "\tif _, ok := peerSet.ByPubKey[ex.Creator()]; !ok && xRound == 0 {\n\t\treturn false, nil\n\t}\n")),
+ M("c10-frame-peers-prev-round", "C10", "C10.hash", (HGF, "\tpeerSet, err := h.Store.GetPeerSet(roundReceived)\n\tif err != nil {\n\t\treturn nil, err\n\t}\n\n\tevents := []*FrameEvent{}", "\tpeerSet, err := h.Store.GetPeerSet(roundReceived - 1)\n\tif err != nil {\n\t\treturn nil, err\n\t}\n\n\tevents := []*FrameEvent{}")),
+ M("c10-hash-over-map", "C10", "C10.hash", ("src/peers/peer_set.go", "\t\tfor _, p := range peerSet.Peers {\n\t\t\tpk := p.PubKeyBytes()", "\t\tfor _, p := range peerSet.ByPubKey {\n\t\t\tpk := p.PubKeyBytes()")),
+ M("c10-join-unverified", "C10", "C10.itx", (RPC, "if ok, _ := cmd.InternalTransaction.Verify(); !ok {", "if ok, err := cmd.InternalTransaction.Verify(); !ok && err != nil {")),
+ M("c10-validators-stale", "C10", "C10.latest", (CORE, "\tc.validators = peers.NewPeerSet(lastPeers)\n", "\tc.validators = peers.NewPeerSet(frame.Peers)\n\t_ = lastPeers\n")),
+ M("c10-loopvar-alias", "C10", "C10.alias", (CORE, "txBody := r.InternalTransaction.Body", "txBody := &r.InternalTransaction.Body")),
+ # ---- C11
+ M("c11-event-own-txn", "C11", "C11.atomic", ("src/hashgraph/badger_store.go", "\t\tif new {\n\t\t\t//insert [topo_index] => [event hash]\n", "\t\tif new {\n\t\t\tif err := tx.Commit(); err != nil {\n\t\t\t\treturn err\n\t\t\t}\n\t\t\ttx = s.db.NewTransaction(true)\n\t\t\tdefer tx.Discard()\n\t\t\t//insert [topo_index] => [event hash]\n")),
+ M("c11-drop-participant-key", "C11", "C11.atomic", ("src/hashgraph/badger_store.go", "\t\t\tpeKey := participantEventKey(event.Creator(), event.Index())\n\t\t\tif err := tx.Set(peKey, []byte(eventHex)); err != nil {\n\t\t\t\treturn err\n\t\t\t}\n", "")),
+ M("c11-db-before-cache", "C11", "C11.first", ("src/hashgraph/badger_store.go", "\t// try to add it to the cache\n\tif err := s.inmemStore.SetEvent(event); err != nil {\n\t\treturn err\n\t}\n\n\t// try to add it to the db\n\tif s.maintenanceMode {\n\t\treturn nil\n\t}\n\treturn s.dbSetEvents([]*Event{event})", "\tif !s.maintenanceMode {\n\t\tif err := s.dbSetEvents([]*Event{event}); err != nil {\n\t\t\treturn err\n\t\t}\n\t}\n\treturn s.inmemStore.SetEvent(event)")),
+ M("c11-no-maintenance", "C11", "C11.replay", (HGF, "\t\tbadgerStore.SetMaintenanceMode(true)\n", "")),
+ M("c11-batch-overlap", "C11", "C11.replay", (HGF, "badgerStore.dbTopologicalEvents(index*batchSize, batchSize)", "badgerStore.dbTopologicalEvents(index*(batchSize-1), batchSize)")),
+ M("c11-babbling-without-head", "C11", "C11.head", (NODEF, "\t\tn.coreLock.Lock()\n\t\terr = n.core.setHeadAndSeq()\n\t\tn.coreLock.Unlock()\n\t\tif err != nil {\n\t\t\treturn err\n\t\t}\n\t\tn.transition(_state.Babbling)", "\t\tn.transition(_state.Babbling)")),
+ M("c11-head-only-on-error", "C11", "C11.head", (NODEF, "\t\tif err := n.core.setHeadAndSeq(); err != nil {\n\t\t\tn.core.setHeadAndSeq()\n\t\t}\n\t\tn.transition(_state.Babbling)", "\t\tif n.conf.Bootstrap {\n\t\t\tn.core.setHeadAndSeq()\n\t\t}\n\t\tn.transition(_state.Babbling)")),
+ # ---- C02
+ M("c02-index-not-plus1", "C02", "C02.index", (HGF, "block, err := NewBlockFromFrame(lastBlockIndex+1, frame)", "block, err := NewBlockFromFrame(lastBlockIndex+len(frame.Events), frame)")),
+ M("c02-callback-before-setblock", "C02", "C02.index", (HGF, "\t\t\t\tif err := h.Store.SetBlock(block); err != nil {\n\t\t\t\t\treturn err\n\t\t\t\t}\n\n\t\t\t\terr := h.commitCallback(block)\n\t\t\t\tif err != nil {\n\t\t\t\t\th.logger.Warningf(\"Failed to commit block %d\", block.Index())\n\t\t\t\t}", "\t\t\t\terr := h.commitCallback(block)\n\t\t\t\tif err != nil {\n\t\t\t\t\th.logger.Warningf(\"Failed to commit block %d\", block.Index())\n\t\t\t\t}\n\n\t\t\t\tif err := h.Store.SetBlock(block); err != nil {\n\t\t\t\t\treturn err\n\t\t\t\t}")),
+ M("c02-continue-on-undecided", "C02", "C02.order", (HGF, "\t\tif !r.Decided {\n\t\t\tbreak\n\t\t}", "\t\tif !r.Decided {\n\t\t\tcontinue\n\t\t}")),
+ M("c02-unsorted-set", "C02", "C02.order", ("src/hashgraph/caches.go", "\tc.sortedItems = append(c.sortedItems, pendingRound)\n\tsort.Sort(c.sortedItems)\n", "\tc.sortedItems = append(c.sortedItems, pendingRound)\n")),
+ M("c02-less-descending", "C02", "C02.order", ("src/hashgraph/caches.go", "\treturn a[i].Index < a[j].Index", "\treturn a[i].Index > a[j].Index")),
+ M("c02-return-on-commit-error", "C02", "C02.once", (HGF, "\t\t\t\t\th.logger.Warningf(\"Failed to commit block %d\", block.Index())\n", "\t\t\t\t\th.logger.Warningf(\"Failed to commit block %d\", block.Index())\n\t\t\t\t\treturn err\n")),
+ M("c02-clean-not-deferred", "C02", "C02.once", (HGF, "\tprocessedRounds := []int{}\n\tdefer func() {\n\t\th.PendingRounds.Clean(processedRounds)\n\t}()\n", "\tprocessedRounds := []int{}\n"), (HGF, "\t\tif h.LastConsensusRound == nil || r.Index > *h.LastConsensusRound {\n\t\t\th.setLastConsensusRound(r.Index)\n\t\t}\n\t}\n\n\treturn nil\n}\n\n// GetFrame computes", "\t\tif h.LastConsensusRound == nil || r.Index > *h.LastConsensusRound {\n\t\t\th.setLastConsensusRound(r.Index)\n\t\t}\n\t}\n\n\th.PendingRounds.Clean(processedRounds)\n\treturn nil\n}\n\n// GetFrame computes")),
+ M("c02-sigpool-rewrites-body", "C02", "C02.frozen", (HGF, "\t\tblock.SetSignature(bs)\n", "\t\tblock.SetSignature(bs)\n\t\tblock.Body.Timestamp = int64(len(block.Signatures))\n")),
+ M("c02-no-restore-after-app", "C02", "C02.persist", (CORE, "\t\tif err := c.hg.Store.SetBlock(block); err != nil {\n\t\t\treturn err\n\t\t}\n\n\t\t// Sign the block", "\t\t// Sign the block")),
 ]
 
 BENIGN = [
@@ -57,4 +90,10 @@ BENIGN = [
  B("c12-benign-bytes-equal", "C12", (CORE, "if !reflect.DeepEqual(block.FrameHash(), frameHash) {", "if !bytes.Equal(block.FrameHash(), frameHash) {"), (CORE, "import (\n\t\"fmt\"\n\t\"reflect\"\n", "import (\n\t\"bytes\"\n\t\"fmt\"\n")),
  B("c12-benign-gt-form", "C12", (HGF, "\tif validSignatures <= peerSet.TrustCount() {\n\t\treturn fmt.Errorf(\"Not enough valid signatures: got %d, need %d\", validSignatures, peerSet.TrustCount())\n\t}\n\n\th.logger.WithField(\"valid_signatures\", validSignatures).Debug(\"CheckBlock\")\n\treturn nil", "\tif validSignatures > peerSet.TrustCount() {\n\t\th.logger.WithField(\"valid_signatures\", validSignatures).Debug(\"CheckBlock\")\n\t\treturn nil\n\t}\n\treturn fmt.Errorf(\"Not enough valid signatures: got %d, need %d\", validSignatures, peerSet.TrustCount())")),
  B("c09-benign-negated-compare", "C09", (HGF, "if len(block.Signatures) > peerSet.TrustCount() &&", "if !(len(block.Signatures) <= peerSet.TrustCount()) &&")),
+
+ B("c10-benign-six-first", "C10", (CORE, "effectiveRound := roundReceived + 6", "effectiveRound := 6 + roundReceived")),
+ B("c10-benign-if-chain", "C10", (CORE, "\t\t\tswitch txBody.Type {\n\t\t\tcase hg.PEER_ADD:", "\t\t\tswitch {\n\t\t\tcase txBody.Type == hg.PEER_ADD:"), (CORE, "\t\t\tcase hg.PEER_REMOVE:", "\t\t\tcase txBody.Type == hg.PEER_REMOVE:")),
+ B("c02-benign-index-var", "C02", (HGF, "block, err := NewBlockFromFrame(lastBlockIndex+1, frame)", "nextIndex := 1 + lastBlockIndex\n\t\t\tblock, err := NewBlockFromFrame(nextIndex, frame)")),
+ B("c02-benign-less-swapped", "C02", ("src/hashgraph/caches.go", "\treturn a[i].Index < a[j].Index", "\treturn a[j].Index > a[i].Index")),
+ B("c11-benign-batchsize", "C11", (HGF, "batchSize := 100", "batchSize := 250")),
 ]
